@@ -375,3 +375,19 @@ pub async fn write_history(input: &Value) -> Value {
 		"fsetid": cap_fsetid(),
 	})
 }
+
+/// op file_names (C02, C03; py/ext/filename.py): what the REAL `get_file_full_path` answers for the
+/// private-key file and for the certificate file of one FileManager (nothing is created or read).
+pub fn file_names(input: &Value) -> Value {
+	let fm = crate::certificate::verif::file_manager(input);
+	let one = |ft: FileType| match get_file_full_path(&fm, ft) {
+		Ok((dir, name, path)) => json!({"dir": dir, "name": name, "path": path.to_string_lossy()}),
+		Err(e) => json!({"error": e.message}),
+	};
+	json!({
+		"pk": one(FileType::PrivateKey),
+		"crt": one(FileType::Certificate),
+		"format": fm.crt_name_format,
+		"default_format": crate::DEFAULT_CERT_FORMAT,
+	})
+}
